@@ -4,7 +4,7 @@
    Print Assumptions under each.  What is NOT proved here -- that no command stream crashes the real
    process -- is explored under sanitizers by tools/props/c05.py and labelled as exploration. *)
 From Coq Require Import List NArith ZArith.
-From NV Require Import Bytes GenConsts GenExCmds CapDefs CapProps.
+From NV Require Import Bytes GenConsts GenCap GenExCmds CapDefs CapProps CapDefs2 CapProps2.
 Import ListNotations.
 
 (* ex_loc, ex_cmd and ex_arg, each writing into a fresh buffer of EXLEN bytes, started at any
@@ -126,4 +126,118 @@ Qed.
 Example C05_guard_needed : ex_exec_unguarded (repeat 49%N excap) = OobWr.
 Proof. vm_compute. reflexivity. Qed.
 Example C05_clip_needed : t_step_noclip t_init (TPush (IBUFSZ + 1)) = OobWr.
+Proof. vm_compute. reflexivity. Qed.
+
+(* ======================================================================================== *)
+(* second part (CapDefs2.v): the small fixed tables that a byte of input indexes or fills     *)
+
+(* (1) reg.c / ex.c REG(): for every string of bytes, REG(s) reads inside the string and yields a
+   value in 0..255 (0x80 | c included) ... *)
+Theorem C05_REG_is_a_byte : forall s, Forall (fun b => (b < 256)%N) s ->
+  exists c, REG s = Ok c /\ (0 <= c < 256)%Z.
+Proof. exact REG_byte. Qed.
+Print Assumptions C05_REG_is_a_byte.
+
+(* ... and for every register name c in 0..255 (what REG(), an (unsigned char) cast, 0x80 | key or a
+   key read from the terminal can be), whatever registers are set and whether or not the text is
+   line-wise, reg_put -- the shift of the numbered registers, the upper-case append, tolower() of the
+   name -- and reg_get index bufs[REGSZ] and lnmode[LNMODESZ] only inside (no OobRd/OobWr);
+   every slot written is inside both tables *)
+Theorem C05_reg_index_in_range : forall (present : Z -> bool) c lnnl, (0 <= c < 256)%Z ->
+  (exists l, reg_put present c lnnl = Ok l /\ Forall (fun i => (0 <= i < REGSZ)%Z /\ (0 <= i < LNMODESZ)%Z) l) /\
+  (exists b, reg_get present c = Ok b).
+Proof. intros p c l H. split; [exact (reg_put_in_range p c l H)|exact (reg_get_ok p c H)]. Qed.
+Print Assumptions C05_reg_index_in_range.
+
+(* (2) lbuf.c marks: markidx of ANY integer is -1 or inside mark[NMARKS]; lbuf_mark and lbuf_jump
+   (which guard the -1) touch mark[]/mark_off[] only inside, for every mark character; the unguarded
+   uses (constant marks '*' and '^', the NMARKS_BASE loop of lbuf_opt) are inside too *)
+Theorem C05_markidx_in_range : forall m, markidx m = (-1)%Z \/ (0 <= markidx m < NMARKS)%Z.
+Proof. exact markidx_range. Qed.
+Print Assumptions C05_markidx_in_range.
+
+Theorem C05_marks_in_range : forall (isset : Z -> bool) m want_off,
+  (exists l, lbuf_mark m = Ok l /\ Forall (fun i => (0 <= i < NMARKS)%Z) l) /\
+  (exists r, lbuf_jump isset m want_off = Ok r /\ match r with Some i => (0 <= i < NMARKS)%Z | None => True end) /\
+  (exists d s, lbuf_pos_marks = Ok (d, s) /\ (0 <= d < NMARKS)%Z /\ (0 <= s < NMARKS)%Z) /\
+  lbuf_opt_marks = Ok tt.
+Proof.
+  intros i m w. split; [exact (lbuf_mark_ok m)|]. split; [exact (lbuf_jump_ok i m w)|].
+  split; [exact lbuf_pos_marks_ok|exact lbuf_opt_marks_ok].
+Qed.
+Print Assumptions C05_marks_in_range.
+
+(* (3) vi.c vi_buf: in every sequence of vi_read / vi_back calls in which a key is pushed back only
+   right after a key was read (the shape of every path through vi.c outside the signal handler), no
+   access leaves vi_buf[VIBUFSZ] and at most ONE key is ever pending -- so the guard of vi_back
+   (vi_buflen < VIBUFGUARD) is never the operative bound.  Holds for every prefix of the stream as well
+   (a prefix of such a sequence is such a sequence). *)
+Theorem C05_vi_buf_one_pending : forall ops, back_after_read false ops = true ->
+  exists n, vb_run 0 ops = Ok n /\ (0 <= n <= 1)%Z.
+Proof. exact vi_buf_one_pending. Qed.
+Print Assumptions C05_vi_buf_one_pending.
+Theorem C05_vi_buf_prefix_closed : forall a b, back_after_read false (a ++ b) = true -> back_after_read false a = true.
+Proof. intros a b. exact (back_after_read_prefix a b false). Qed.
+Print Assumptions C05_vi_buf_prefix_closed.
+
+(* (6) vi.c rep_cmd: after every sequence of pushes, reads and term_cmd calls the recorded command of
+   length icmd_pos is copied into rep_cmd[REPCMDSZ] (memcpy and terminator) only when it fits *)
+Theorem C05_rep_cmd_fits : forall ops, Forall op_ok ops ->
+  exists t r, t_run t_init ops = Ok t /\ rep_copy (icmd_pos t) = Ok r.
+Proof. exact rep_copy_after_any_input. Qed.
+Print Assumptions C05_rep_cmd_fits.
+
+(* (4) led.c led_render: for every column table (any positions, any widths -- tabs, double-width and
+   zero-width characters, characters straddling either edge), every window cbeg <= cend and both
+   directions (ctx >= 0 / ctx < 0), off[cend - cbeg] is written only inside, and every cell holds -1
+   or a character index below n, so att[o] / chrs[o] are inside their n cells *)
+Theorem C05_led_render_in_range : forall ctx cbeg cend (cols : list (Z * Z)), (cbeg <= cend)%Z ->
+  exists off, led_render_off ctx cbeg cend true cols = Ok off /\ Z.of_nat (length off) = (cend - cbeg)%Z /\
+              cells_index (Z.of_nat (length cols)) off = Ok tt.
+Proof. exact led_render_safe. Qed.
+Print Assumptions C05_led_render_in_range.
+
+(* (5) ex.c ex_pathexpand: for every argument string, every current/alternate path (unset, empty, of any
+   length) and both modes, no store leaves buf[PATHCAP] -- the terminator included -- no read passes
+   the terminator of the argument, the loop ends, and the result is shorter than PATHCAP *)
+Theorem C05_pathexpand_in_range : forall cur alt spaceallowed s,
+  exists r, ex_pathexpand cur alt spaceallowed s = Ok r /\
+            match r with Some str => (Z.of_nat (length str) < PATHCAP)%Z | None => True end.
+Proof. exact ex_pathexpand_safe. Qed.
+Print Assumptions C05_pathexpand_in_range.
+
+(* ex.c bufs[NBUFS]: every sequence of "open a new buffer" (bufs_findroom, bufs_init, bufs_switch),
+   "switch to slot idx" (0 <= idx < NBUFS, as the callers check) and bufs_shift from the empty table
+   stays inside the table: the slot search answers at most NBUFS - 1 and the memmove of bufs_switch
+   ends at the last slot *)
+Theorem C05_bufs_in_range : forall ops, Forall bop_ok ops ->
+  exists t, b_run b_init ops = Ok t /\ Z.of_nat (length t) = NBUFS.
+Proof. exact b_run_from_init. Qed.
+Print Assumptions C05_bufs_in_range.
+
+(* non-vacuity and teeth of the second part *)
+Example C05_nonvacuous2 :
+  REG [92; 233]%N = Ok 233%Z /\ reg_put (fun _ => true) 65 true = Ok [97; 49; 50; 51; 52; 53; 54; 55; 56; 57]%Z /\
+  markidx 39 = 26%Z /\ markidx 0 = (-1)%Z /\
+  back_after_read false [VRead; VBack; VRead; VRead; VBack; VRead] = true /\
+  led_render_off 1 2 6 true [(0, 1); (1, 2); (3, 2); (5, 2)]%Z = Ok [-1; 2; 2; -1]%Z /\
+  led_render_off (-1) 2 6 true [(0, 1); (1, 2); (3, 2); (5, 2)]%Z = Ok [-1; 2; 2; -1]%Z /\
+  ex_pathexpand (Some [97; 47; 98]%N) None false [61; 37; 46; 99]%N = Ok (Some [97; 47; 97; 47; 98; 46; 99]%N) /\
+  Forall bop_ok (repeat BOpen 20).
+Proof. vm_compute. repeat split; try reflexivity; repeat constructor; congruence. Qed.
+
+(* the models have teeth: an index of -1 (a key read at end of input) or 256 is outside the register
+   tables; 129 pushes without a read pass the guard and overflow vi_buf (the guard compares with
+   sizeof, not with the number of cells); the half guard of led_render writes outside; without the
+   final clamp ex_pathexpand stores the terminator outside; a slot search up to LEN(bufs) makes
+   bufs_switch move past the table with the 17th buffer *)
+Example C05_reg_index_needed : reg_put (fun _ => false) (-1) false = OobRd /\ reg_get (fun _ => false) 256 = OobRd.
+Proof. vm_compute. split; reflexivity. Qed.
+Example C05_vi_buf_guard_is_not_the_bound : vb_run 0 (repeat VBack 129) = OobWr.
+Proof. vm_compute. reflexivity. Qed.
+Example C05_render_guard_needed : led_render_off 1 0 4 false [(3, 2)]%Z = OobWr.
+Proof. vm_compute. reflexivity. Qed.
+Example C05_clamp_needed : ex_pathexpand_gen (Some (repeat 97%N 2000)) None false false [37%N] = OobWr.
+Proof. vm_compute. reflexivity. Qed.
+Example C05_findroom_bound_needed : b_run_gen 0 b_init (repeat BOpen 17) = OobWr.
 Proof. vm_compute. reflexivity. Qed.
